@@ -236,6 +236,21 @@ func checkSerial(p gen.Program) error {
 	if oa.Steps != ob.Steps {
 		return fmt.Errorf("executed steps differ: %d vs %d", oa.Steps, ob.Steps)
 	}
+	// Writing is a pure function of the program: having executed it, failed in it and formatted its
+	// backtrace (which materialises lazily decoded tables) must not change the bytes - for the original and for the copy.
+	for i, pr := range []*starlark.Program{prog, q} {
+		var again bytes.Buffer
+		if err := pr.Write(&again); err != nil {
+			return fmt.Errorf("Write after execution failed (program %d): %v", i, err)
+		}
+		if !bytes.Equal(b, again.Bytes()) {
+			j := 0
+			for j < len(b) && j < again.Len() && b[j] == again.Bytes()[j] {
+				j++
+			}
+			return fmt.Errorf("Write after execution differs from Write before it (program %d) at byte %d (lengths %d vs %d)", i, j, len(b), again.Len())
+		}
+	}
 	ma, mb := reachableFunctions(oa.Raw), reachableFunctions(ob.Raw)
 	if sa, sb := fmt.Sprintf("%+v", ma), fmt.Sprintf("%+v", mb); sa != sb {
 		return fmt.Errorf("function metadata differs:\n%s\nvs\n%s", sa, sb)
